@@ -142,6 +142,10 @@ KERNELS = ["beta", "exponential", "inversegamma", "laplace", "loglaplace", "logn
 NP_INTS = ["int8", "int16", "int32", "int64", "uint8", "uint16", "uint32", "uint64"]
 ARG_TYPES = ["int", "float"] + NP_INTS + ["float32", "float64", "arr0:int64", "arr0:int32", "arr0:uint8", "arr0:float32",
                                           "arr0:float64"]
+# a float32 argument: whether the approximation is then carried in single or in double precision is left open by the
+# text (the documented argument type is `float`); the tolerances are widened by a single-precision rounding budget
+# (~170 ulp of float32: a product of up to 29 factors, a 9-term polynomial, a quotient)
+SINGLE_BUDGET = 1e-5
 F32_TINY = 1.1e-19          # below this x*x is subnormal / zero in single precision (known finding C18-erfinv-underflow)
 # parameter types of the kernel generators (unsigned numpy scalars are outside the class: `-_lambda`, `-size` wrap
 # around by numpy's own rules) and the types the `size` argument is given in
@@ -188,7 +192,7 @@ def ty_holds(ty, v: float) -> bool:
     if kind == "pyfloat":
         return True
     if kind == "pyint":
-        return v == int(v)
+        return v == int(v) and abs(v) < 2.0 ** 63        # numpy takes a Python int only while it fits an integer dtype
     if kind in "iu":
         info = np.iinfo(dt)
         return v == int(v) and info.min <= int(v) <= info.max
@@ -290,9 +294,11 @@ class C18(Prop):
             "every integer 1..30 in every integer type, checked against the Lean specification Gamma(n) = (n-1)! "
             "(gammaApprox_nat: the model equals it exactly; (n-1)! leaves int32 at n = 14, int64 at n = 22) as well as "
             "math.gamma; erf at integers around the widths where x**2 .. x**4 leave int8 / int16 / int32 / int64; erfinv at "
-            "the integer 0; the dense grids' single-precision neighbours as float32 scalars and arrays (gamma below one: "
-            "1.0 / x is a float32 quotient, model tolerance 2e-7; erfinv: 1e-5; |x| >= 1.1e-19, below that x*x underflows in "
-            "single precision - the single-precision form of known finding C18-erfinv-underflow, one targeted case). An "
+            "the integer 0; the dense grids' single-precision neighbours as float32 scalars and arrays (every tolerance, "
+            "against the true function and against the model, widened by a single-precision rounding budget of 1e-5: the "
+            "text does not say in which precision a float32 argument is processed; erfinv for |x| >= 1.1e-19, below that "
+            "x*x underflows in single precision - the single-precision form of known finding C18-erfinv-underflow, one "
+            "targeted case). An "
             "exception raised for an argument type is a violation. PARAMETER-TYPE CLASS (kernel:param-type:* / "
             "kernel:size-type:*, ~7 % of the generated cases plus 200 targeted): shape, location, scale and shift of every "
             "generator as Python int, numpy int16 / int32 / int64, float32 and float64 scalars (every parameter whose value the "
@@ -674,7 +680,8 @@ class C18(Prop):
             case["scale"], case["shift"] = rng.choice([(1.0, 0.0), (1.0, 0.0), (-1.0, 1.0)] + ([(0.5, 0.5), (0.5, 0.25)] if frac else []))
         elif name in POS_KERNELS:
             case["scale"] = rng.choice([1.0, 1.0, 2.0, 3.0] + ([0.5, 1.5] if frac else []))
-            case["shift"] = rng.choice([1.0, 2.0, 1e-6] + ([0.5, 0.125] if frac else []) + ([0.0] if name == "exponential" else []))
+            case["shift"] = rng.choice([1.0, 2.0] + ([1e-6] if ptype != "float32" else []) + ([0.5, 0.125] if frac else [])
+                                       + ([0.0] if name == "exponential" else []))
             case["args"] = {"exponential": lambda: [max(0.125, num(1, 5) if rng.random() < 0.8 else num(0, 1))],
                             "inversegamma": lambda: [num(1, rng.choice([3, 8, 25] if ptype in ("int", "int64", "float32", "float64")
                                                                        else [3, 13] if ptype == "int32" else [3, 6])), num(1, 5)],
@@ -1074,7 +1081,9 @@ class C18(Prop):
         errors = set()
         run = self.guarded(run, errors)
         impl, model, spec, sok, mok, feats = self.special(
-            case, ctx, "erf", run, math.erf, lambda v, t: abs(v - t) <= ERF_ABS, "c18.erf", model_rel=1e-11, model_abs=1e-13)  # 1 - 1/(1+s)^4 cancels for tiny x
+            case, ctx, "erf", run, math.erf, lambda v, t: abs(v - t) <= ERF_ABS + (SINGLE_BUDGET if ty_single(ty) else 0.0),
+            "c18.erf", model_rel=SINGLE_BUDGET if ty_single(ty) else 1e-11,
+            model_abs=SINGLE_BUDGET if ty_single(ty) else 1e-13)  # 1 - 1/(1+s)^4 cancels for tiny x
         # oddness, bit-exact: erf(-x) == -erf(x)
         xs = [float(x) for x in case["xs"]]
         odd = [x for x in xs if not unsigned or x == 0]            # an unsigned type holds no negative argument
@@ -1098,13 +1107,14 @@ class C18(Prop):
         unsigned = ty_unsigned(ty)
         errors = set()
         run = self.guarded(lambda xs: [float(cv.erfinv(make(x))) for x in xs], errors)
-        ok = lambda v, t: (v == t) if t == 0 else abs(v - t) <= ERFINV_REL * abs(t)
+        tol = ERFINV_REL + (SINGLE_BUDGET if single else 0.0)
+        ok = lambda v, t: (v == t) if t == 0 else abs(v - t) <= tol * abs(t)
         impl, _, spec, sok, _, feats = self.special(case, ctx, "erfinv", run, erfinv_true, ok)
         xs = [float(x) for x in case["xs"]]
         pos = run(xs)
         neg = pos if unsigned else run([-x for x in xs])           # an unsigned type holds 0 only: -0 is 0
         notodd = [x.hex() for x, a, b in zip(xs, pos, neg) if not (a == -b)]
-        mrel = 1e-5 if single else 1e-10                           # single precision: log1p, sqrt, the quotients in float32
+        mrel = SINGLE_BUDGET if single else 1e-10                  # single precision: log1p, sqrt, the quotients in float32
         # the model: erfinv as coded around pi, log1p and sqrt (erfinvWith).  The opaque pieces get the standard library's
         # values (math.pi, math.log1p at the float -x*x the code forms) and a 30-digit rational square root; the rest
         # (sign, constants, the two nested quotients) is evaluated exactly by the driver
@@ -1145,10 +1155,12 @@ class C18(Prop):
         make = ty_make(ty)
         errors = set()
         run = self.guarded(lambda xs: [float(cv.gamma(make(x))) for x in xs], errors)
-        # single precision: 1.0 / x below one is a float32 quotient (half an ulp = 6e-8), the rest is formed in double
+        # single precision: as coded only 1.0 / x below one is a float32 quotient (half an ulp = 6e-8: the 3e-7 still
+        # holds, worst 2.94e-7 over every float32 below one); a rewrite may carry the product in float32
+        gtol = GAMMA_REL + (SINGLE_BUDGET if ty_single(ty) else 0.0)
         impl, model, spec, sok, mok, feats = self.special(
-            case, ctx, "gamma", run, math.gamma, lambda v, t: abs(v - t) <= GAMMA_REL * abs(t), "c18.gamma",
-            model_rel=2e-7 if ty_single(ty) else 1e-10, model_max=1e3)
+            case, ctx, "gamma", run, math.gamma, lambda v, t: abs(v - t) <= gtol * abs(t), "c18.gamma",
+            model_rel=SINGLE_BUDGET if ty_single(ty) else 1e-10, model_max=1e3)
         xs = [float(x) for x in case["xs"]]
         # integer arguments, whatever type carries them: the Lean specification Gamma(n) = (n - 1)! (the model equals it
         # exactly: gammaApprox_nat) - no library gamma function involved
@@ -1157,7 +1169,7 @@ class C18(Prop):
             rep = ctx.driver.call("c18.gamma_int", ns=[int(xs[i]) for i in ints])
             vals = run([xs[i] for i in ints])
             badf = [[xs[i].hex(), repr(v), str(f)] for i, v, f in zip(ints, vals, rep["spec"])
-                    if not (math.isfinite(v) and abs(Fraction(v) - f) <= Fraction(GAMMA_REL) * f)]
+                    if not (math.isfinite(v) and abs(Fraction(v) - f) <= Fraction(gtol) * f)]
             badm = [xs[i].hex() for i, m, f in zip(ints, rep["model"], rep["spec"]) if unrat(m) != f]
             impl["integer_outside_factorial_tolerance"], spec["integer_outside_factorial_tolerance"] = badf, []
             model["model_differs_from_factorial"] = badm
@@ -1194,6 +1206,8 @@ class C18(Prop):
         elif name in POS_KERNELS:
             if args[0] <= 0 or lo <= 0 or (name == "inversegamma" and args[1] <= 0):
                 return name + ": positive parameters, axis inside x > 0"
+            if name == "inversegamma" and lim < 600 and (args[0] + 1) * max(0.0, -math.log10(float(lo))) > 36:
+                return "inversegamma: x ** (-alpha - 1) overflows in single precision at the first axis point"
         elif name == "triangular":
             if not (args[0] <= 0 <= args[1] and args[0] < args[1]):
                 return "triangular: a <= 0 <= b, a < b"
